@@ -62,9 +62,16 @@ class Check:
 
     # ------------------------------------------------------------------ known
     def _load_known(self):
-        if not os.path.exists(KNOWN_FILE):
-            return
-        with open(KNOWN_FILE, encoding="utf-8") as f:
+        files = [KNOWN_FILE]
+        extra = os.environ.get("VERIF_KNOWN_EXTRA")  # development aid: proposed entries not merged yet
+        if extra:
+            files.append(extra)
+        for fn in files:
+            if os.path.exists(fn):
+                self._load_known_file(fn)
+
+    def _load_known_file(self, fn):
+        with open(fn, encoding="utf-8") as f:
             for line in f:
                 line = line.strip()
                 if not line or line.startswith("#"):
